@@ -35,7 +35,7 @@ CHECKS["C02"] = dict(
          "negative other than -1, non-numeric, LF without CR, bare LF, bulk body without CR LF). C02.fragmentation_independent: the incremental reader of "
          "Resp/Chunked.lean (ReadBytes / ReadFull over a buffer carried between reads) yields for every list of chunks exactly parseLoop of the concatenation. "
          "Tied to the code by feeding well-formed and malformed streams to resp.ParseStream whole, byte by byte and in random chunks and comparing the full "
-         "event list with the model's; the driver also runs the chunked reader on a chunking of every stream.",
+         "event list with the model's; the driver also runs the chunked reader on the very chunk boundaries the harness's reader handed out (field k= of each line).",
     note="Trusted: Lean kernel (propext, Classical.choice, Quot.sound), harness/driver, that bufio.Reader.ReadBytes / io.ReadFull implement the modelled reader. "
          "Bulk arguments below 512 MiB. Isolation between connections (nothing executed after a protocol error) is also exercised through the serve engine.",
 )
